@@ -9,7 +9,7 @@
    object that is not live (outcome Dangling of [step]).  [listed u p] = p is in u's input or output
    port list. *)
 From OlaBase Require Import Bytes.
-From C03 Require Import Gen Model Lemmas Proofs Proofs2 Model2 Proofs3 Proofs4.
+From C03 Require Import Gen Model Lemmas Proofs Proofs2 Model2 Proofs3 Proofs4 Model3 Proofs5.
 Local Open Scope N_scope.
 
 (* the constants regenerated from include/ola/dmx/SourcePriorities.h are the property's numbers *)
@@ -267,3 +267,79 @@ Example ex_broker_stale :
   | None => False
   end.
 Proof. vm_compute. repeat split; reflexivity. Qed.
+
+(* ====================================================================================================
+   Round 4: source-client staleness (Model3.v).  [yop] adds to the operations of round 2
+     - YFrame n cl   : a DMX frame from client cl for universe n (OlaServerServiceImpl::UpdateDmxData ->
+                       Universe::SourceClientDataChanged -> AddSourceClient: STLReplace(cl, false));
+     - YHousekeeping : OlaServer::RunHousekeeping = GarbageCollectUniverses, then
+                       CleanStaleSourceClients on every universe (erase the clients whose flag is set,
+                       queue the universe if that leaves it unused, set the flag of the others).
+   [y_stale o cl] is Universe::m_source_clients[cl] of universe object o. *)
+
+(* the invariant (the clauses of c03_inv that the property text states, plus broker = patched) over
+   histories that also contain frames and housekeeping runs; no operation dangles *)
+Theorem c03y_inv : forall (xc : xcfg) (ops : list yop),
+  exists y s, yrun xc (yinit xc) ops = Some y /\ s = x_s (y_x y) /\
+  (forall o u p, s_heap s o = Live u -> (listed u p <-> s_puniv s p = Some o)) /\
+  (forall p o, s_puniv s p = Some o -> exists u, s_heap s o = Live u /\ listed u p) /\
+  (forall o1 o2 u1 u2 p, s_heap s o1 = Live u1 -> s_heap s o2 = Live u2 ->
+      listed u1 p -> listed u2 p -> o1 = o2) /\
+  (forall p q pcp pcq dc o, p <> q -> port_cfg (xc_cfg xc) p = Some pcp -> port_cfg (xc_cfg xc) q = Some pcq ->
+      pc_dev pcp = pc_dev pcq -> dev_cfg (xc_cfg xc) (pc_dev pcp) = Some dc ->
+      s_puniv s p = Some o -> s_puniv s q = Some o ->
+      (dc_loop dc = false -> pc_in pcp = pc_in pcq) /\ (dc_multi dc = false -> pc_in pcp <> pc_in pcq)) /\
+  (forall p, s_pprio s p <= 200) /\
+  (forall n o, sfind n (s_store s) = Some o <-> exists u, s_heap s o = Live u /\ u_num u = n) /\
+  (forall o u, s_heap s o = Live u -> u_active u = false -> In o (s_cand s)) /\
+  (forall o, In o (s_cand s) -> exists u, s_heap s o = Live u) /\
+  (forall p, s_pdead s p = false -> (x_broker (y_x y) p = true <-> s_puniv s p <> None)).
+Proof. exact c03y_inv_l. Qed.
+Print Assumptions c03y_inv.
+
+(* every operation completes; a live universe stops being live only through the collector (GC or the
+   GC half of a housekeeping run) and only if nothing referred to it when the operation started *)
+Theorem c03y_lifetime : forall (xc : xcfg) (ops : list yop) (y : ystate) (o : yop),
+  yrun xc (yinit xc) ops = Some y ->
+  exists y' r, ystep xc y o = YOk y' r /\
+    forall a u, s_heap (x_s (y_x y)) a = Live u ->
+      (exists u', s_heap (x_s (y_x y')) a = Live u' /\ u_num u' = u_num u) \/
+      ((o = YX (XBase GC) \/ o = YHousekeeping) /\ u_active u = false /\ s_heap (x_s (y_x y')) a = Freed).
+Proof. exact c03y_lifetime_l. Qed.
+Print Assumptions c03y_lifetime.
+
+(* a frame for an existing universe makes the sending client one of its source clients with a clear
+   stale flag *)
+Theorem c03y_frame_fresh : forall (xc : xcfg) (ops : list yop) (y : ystate) (n cl o : N),
+  yrun xc (yinit xc) ops = Some y -> sfind n (s_store (x_s (y_x y))) = Some o ->
+  exists y', ystep xc y (YFrame n cl) = YOk y' (RBool true) /\
+    (exists u', s_heap (x_s (y_x y')) o = Live u' /\ u_num u' = n /\ In cl (u_src u')) /\
+    y_stale y' o cl = false.
+Proof. exact c03y_frame_fresh_l. Qed.
+Print Assumptions c03y_frame_fresh.
+
+(* a source client whose flag is clear (it sent a frame since the previous housekeeping run) survives a
+   housekeeping run, and the universe it refers to is not collected by it *)
+Theorem c03y_housekeeping_keeps : forall (xc : xcfg) (ops : list yop) (y : ystate) (o cl : N) (u : uni),
+  yrun xc (yinit xc) ops = Some y ->
+  s_heap (x_s (y_x y)) o = Live u -> In cl (u_src u) -> y_stale y o cl = false ->
+  exists y' l, ystep xc y YHousekeeping = YOk y' (RSaved l) /\
+    exists u', s_heap (x_s (y_x y')) o = Live u' /\ u_num u' = u_num u /\ In cl (u_src u').
+Proof. exact c03y_housekeeping_keeps_l. Qed.
+Print Assumptions c03y_housekeeping_keeps.
+
+(* a client that sends one frame per housekeeping run is the only referrer of universe 5 and keeps it
+   alive; after two runs without a frame it is reaped and the universe is collected by the third *)
+Example ex_stale_client :
+  let fr := YFrame 5 0 in
+  match yrun ex_xcfg (yinit ex_xcfg)
+          [YX (XSvcRegister 5 1); fr; YX (XSvcUnregister 5 1); YHousekeeping; fr; YHousekeeping; fr; YHousekeeping] with
+  | Some y =>
+    map fst (s_store (x_s (y_x y))) = [5] /\
+    match yrun ex_xcfg y [YHousekeeping; YHousekeeping] with
+    | Some y2 => s_store (x_s (y_x y2)) = []
+    | None => False
+    end
+  | None => False
+  end.
+Proof. vm_compute. split; reflexivity. Qed.
